@@ -164,6 +164,12 @@ var RegexCatalogue = []RegexEntry{
 		return len(r) == 3 && r[0] == 'a' && r[2] == 'c' && r[1] != '\n' && validRunes(s)
 	}},
 	{`^$`, func(s string) bool { return s == "" }},
+	// fully anchored literals: equality, not containment
+	{`^yes$`, func(s string) bool { return s == "yes" }},
+	{`\Aok\z`, func(s string) bool { return s == "ok" }},
+	{`^v1\.0$`, func(s string) bool { return s == "v1.0" }},
+	{`^abc`, func(s string) bool { return strings.HasPrefix(s, "abc") }},
+	{`é$`, func(s string) bool { return strings.HasSuffix(s, "é") }},
 }
 
 func validRunes(s string) bool {
